@@ -1,6 +1,7 @@
 package language
 
 import (
+	"reflect"
 	"sort"
 	"strings"
 
@@ -169,6 +170,14 @@ func (e *Environment) Apply(item map[string]*types.Item, aliases map[string]stri
 
 		if alias, ok := aliases[k]; ok {
 			k = alias
+		}
+
+		if orig, ok := item[k]; ok && orig != nil {
+			// an attribute the update did not change keeps its stored representation,
+			// so that e.g. a 38 digit number is not rewritten through a float64
+			if origObj, err := MapToObject(orig); err == nil && reflect.DeepEqual(origObj, v) {
+				continue
+			}
 		}
 
 		vItem := v.ToDynamoDB()
